@@ -840,10 +840,13 @@ pub fn run(cfg: &Cfg) {
         return;
     }
 
-    // ---- 2 threads: all unordered pairs of valid programs of <= 3 operations whose static interleaving
-    //      bound is <= cap2
+    // ---- 2 threads: all unordered pairs of valid programs of <= len2 operations whose static interleaving
+    //      bound is <= cap2; 3 threads: all unordered triples of programs of <= len3 operations, bound <= cap3.
+    //      Measured: quick = 1116 pairs + 34 triples = 412 545 executions (~11 s); thorough = 4 354 pairs +
+    //      338 triples, ~2.6 million executions (~1.5 min). C12_CAP2 / C12_CAP3 override the caps (experiments).
     let envf = |k: &str, d: f64| std::env::var(k).ok().and_then(|v| v.parse().ok()).unwrap_or(d);
-    let (len2, cap2) = if cfg.thorough { (4usize, envf("C12_CAP2", 60000f64)) } else { (3usize, envf("C12_CAP2", 2600f64)) };
+    let (len2, cap2) = if cfg.thorough { (4usize, envf("C12_CAP2", 8000f64)) } else { (3usize, envf("C12_CAP2", 8000f64)) };
+    let (len3, cap3) = if cfg.thorough { (2usize, envf("C12_CAP3", 40000f64)) } else { (1usize, envf("C12_CAP3", 8000f64)) };
     let progs2 = valid_programs(len2);
     let mut sets = 0u64;
     let mut complete = true;
@@ -866,7 +869,6 @@ pub fn run(cfg: &Cfg) {
     }
     // ---- 3 threads
     if !st.fatal {
-        let (len3, cap3) = if cfg.thorough { (2usize, envf("C12_CAP3", 40000f64)) } else { (1usize, envf("C12_CAP3", 2600f64)) };
         let progs3 = valid_programs(len3);
         'outer3: for i in 0..progs3.len() {
             for j in i..progs3.len() {
@@ -892,10 +894,7 @@ pub fn run(cfg: &Cfg) {
     out.hit_n("program_sets", sets);
     let rule = format!(
         "real threads under a deterministic scheduler (verif_hooks callback blocks at every FdLoad / FdCompareExchange / FdInnerDrop / FdDup / FdClose point and at every operation start; one thread runs at a time); EVERY complete interleaving (stateless DFS, programs re-run from scratch per schedule) of: all unordered pairs of borrow-valid programs of <= {} operations over take/get/dup/clone/drop (each thread starts with one clone of the handle and drops what it still owns at its end) whose static interleaving bound is <= {}, and all unordered triples of such programs of <= {} operation(s) with bound <= {}; one case per complete schedule (request = programs + schedule, so distinct by construction); non-trivial = some thread was preempted inside an operation",
-        len2,
-        cap2,
-        if cfg.thorough { 2 } else { 1 },
-        if cfg.thorough { 40000 } else { 2600 }
+        len2, cap2, len3, cap3
     );
     out.finish(&rule, complete);
     if !st.fatal {
